@@ -1547,6 +1547,35 @@ impl HttpsListener {
             validate_sozu_id_header(hdr)?;
         }
 
+        // HTTP answers: merge legacy `http_answers` and the new `answers`
+        // map on top of a copy of the existing config and compile the
+        // listener-level template registry now: a template that does not
+        // parse must refuse the patch before any of its fields is applied.
+        let mut new_answers = None;
+        if patch.http_answers.is_some() || !patch.answers.is_empty() {
+            let mut http_answers = self.config.http_answers.clone();
+            let mut answers = self.config.answers.clone();
+            if let Some(ref new_answers) = patch.http_answers {
+                crate::sozu_command::state::merge_custom_http_answers(
+                    &mut http_answers,
+                    new_answers,
+                );
+            }
+            for (code, body) in &patch.answers {
+                if !body.is_empty() {
+                    answers.insert(code.clone(), body.clone());
+                }
+            }
+
+            let mut answers_map = answers.clone();
+            if let Some(ref legacy) = http_answers {
+                crate::protocol::http::answers::merge_legacy_into_map(&mut answers_map, legacy);
+            }
+            let rebuilt = HttpAnswers::new(&answers_map)
+                .map_err(|(name, error)| ListenerError::TemplateParse(name, error))?;
+            new_answers = Some((http_answers, answers, rebuilt));
+        }
+
         // --- simple field patches ---
         if let Some(v) = patch.public_address {
             self.config.public_address = Some(v);
@@ -1670,30 +1699,12 @@ impl HttpsListener {
             );
         }
 
-        // HTTP answers: merge legacy `http_answers` and the new `answers`
-        // map on top of the existing config, then rebuild the listener-level
-        // template registry. Per-cluster overrides in
-        // `HttpAnswers::cluster_answers` are preserved across the rebuild.
-        let answers_changed = patch.http_answers.is_some() || !patch.answers.is_empty();
-        if answers_changed {
-            if let Some(ref new_answers) = patch.http_answers {
-                crate::sozu_command::state::merge_custom_http_answers(
-                    &mut self.config.http_answers,
-                    new_answers,
-                );
-            }
-            for (code, body) in &patch.answers {
-                if !body.is_empty() {
-                    self.config.answers.insert(code.clone(), body.clone());
-                }
-            }
-
-            let mut answers_map = self.config.answers.clone();
-            if let Some(ref legacy) = self.config.http_answers {
-                crate::protocol::http::answers::merge_legacy_into_map(&mut answers_map, legacy);
-            }
-            let mut rebuilt = HttpAnswers::new(&answers_map)
-                .map_err(|(name, error)| ListenerError::TemplateParse(name, error))?;
+        // HTTP answers: commit the configuration and the templates compiled
+        // above. Per-cluster overrides in `HttpAnswers::cluster_answers` are
+        // preserved across the rebuild.
+        if let Some((http_answers, answers, mut rebuilt)) = new_answers {
+            self.config.http_answers = http_answers;
+            self.config.answers = answers;
             let preserved = std::mem::take(&mut self.answers.borrow_mut().cluster_answers);
             rebuilt.cluster_answers = preserved;
             *self.answers.borrow_mut() = rebuilt;
